@@ -145,7 +145,8 @@ VARIANTS = [
     {"id": "longnames", "align": 4096, "longnames": True, "trailing": 5, "tail": 3000, "salt": 3},
     {"id": "nested-tar-content", "align": 4096, "nested": True, "tail": 2048},
     {"id": "regular-type-flags", "align": 512, "typeflags": True, "salt": 5},
-    {"id": "header-words", "align": 4096, "hdrwords": True, "salt": 6},
+    {"id": "header-words", "align": 512, "gap": 512, "hdrwords": True, "salt": 6},
+    {"id": "header-words-unaligned", "align": 1, "gap": 3, "hdrwords": True, "salt": 8},
     {"id": "shared-data", "align": 512, "shared": True, "salt": 7},
 ]
 
